@@ -181,6 +181,8 @@ struct TrialOutcome {
     thread_of_event: Vec<usize>,
     deadlock: Option<String>,
     answers: u64,
+    /// (query, answer) in execution order, per thread
+    given: Vec<(String, String)>,
 }
 
 fn thread_states() -> Vec<(String, char, u64)> {
@@ -203,7 +205,7 @@ fn thread_states() -> Vec<(String, char, u64)> {
 }
 
 /// One trial: `nthreads` threads run their scripts against one cold namespace.
-fn run_trial(grid: Grid, g: &Graph, scripts: Vec<Vec<Query>>, expected_cold: &HashMap<String, String>, seed: u64, stall_limit: Duration) -> TrialOutcome {
+fn run_trial(grid: Grid, g: &Graph, scripts: Vec<Vec<Query>>, expected_cold: &HashMap<String, String>, seed: u64, stall_limit: Duration, widen: bool) -> TrialOutcome {
     let nsh = leak_ns(grid);
     let ns = nsh.get();
     let nthreads = scripts.len();
@@ -212,7 +214,7 @@ fn run_trial(grid: Grid, g: &Graph, scripts: Vec<Vec<Query>>, expected_cold: &Ha
     let done = Arc::new(AtomicU64::new(0));
     let abandon = Arc::new(AtomicBool::new(false));
     hooks::set_recording(true);
-    hooks::set_yield_fn(Some(yield_fn));
+    hooks::set_yield_fn(if widen { Some(yield_fn) } else { None });
     let mut handles = Vec::new();
     for (ti, script) in scripts.into_iter().enumerate() {
         let barrier = barrier.clone();
@@ -226,12 +228,14 @@ fn run_trial(grid: Grid, g: &Graph, scripts: Vec<Vec<Query>>, expected_cold: &Ha
             let mut wrong = Vec::new();
             let mut panics = Vec::new();
             let mut answers = 0u64;
+            let mut given: Vec<(String, String)> = Vec::new();
             barrier.wait();
             for q in &script {
                 match catch_unwind(AssertUnwindSafe(|| answer(ns, q))) {
                     Ok(a) => {
                         answers += 1;
                         let key = format!("{q:?}");
+                        given.push((key.clone(), a.clone()));
                         if let Some(o) = oracle(&g, q) {
                             if o != a {
                                 wrong.push((q.clone(), a.clone(), o, "graph oracle".to_string()));
@@ -251,7 +255,7 @@ fn run_trial(grid: Grid, g: &Graph, scripts: Vec<Vec<Query>>, expected_cold: &Ha
                 progress.fetch_add(1, Ordering::Relaxed);
             }
             done.fetch_add(1, Ordering::Relaxed);
-            (wrong, panics, hooks::take_events(), answers)
+            (wrong, panics, hooks::take_events(), answers, given)
         }));
     }
     // deadlock detector: no progress for `stall_limit` AND every worker asleep with zero CPU delta
@@ -263,7 +267,7 @@ fn run_trial(grid: Grid, g: &Graph, scripts: Vec<Vec<Query>>, expected_cold: &Ha
         if done.load(Ordering::Relaxed) as usize == nthreads {
             break;
         }
-        std::thread::sleep(Duration::from_millis(2));
+        std::thread::sleep(Duration::from_micros(if widen { 1000 } else { 100 }));
         let p = progress.load(Ordering::Relaxed);
         if p != last {
             last = p;
@@ -302,7 +306,8 @@ fn run_trial(grid: Grid, g: &Graph, scripts: Vec<Vec<Query>>, expected_cold: &Ha
     }
     for (ti, h) in handles.into_iter().enumerate() {
         match h.join() {
-            Ok((wrong, panics, events, answers)) => {
+            Ok((wrong, panics, events, answers, given)) => {
+                out.given.extend(given);
                 out.wrong.extend(wrong);
                 out.panics.extend(panics);
                 out.answers += answers;
@@ -381,32 +386,33 @@ pub fn run(ctx: &mut Ctx) {
         let mut script: Vec<Query> = (0..24).map(|_| gen_query(&mut rng, &keys, &all)).collect();
         let mut first: HashMap<String, String> = HashMap::new();
         for perm in 0..4 {
-            let nsh = leak_ns(grid.clone());
-            let ns = nsh.get();
             rng.shuffle(&mut script);
+            // one thread, same answer monitor and the same deadlock detector (a cache that takes a lock it already
+            // holds hangs a single thread just as well)
+            let out = run_trial(grid.clone(), &g, vec![script.clone()], &first, crate::prng::mix(&[ctx.seed, i, perm]), Duration::from_secs(if cfg!(miri) { 120 } else { 5 }), false);
             for q in &script {
-                let r = crate::util::catch(|| answer(ns, q));
                 ctx.eval("history:query", crate::prng::mix(&[crate::prng::hash_str(&format!("{q:?}")), i, perm]), true);
-                match r {
-                    Err(p) => ctx.violation(&format!("history:{}", crate::util::panic_sig(&p)), &p.msg, json!({"query": format!("{q:?}")})),
-                    Ok(a) => {
-                        let key = format!("{q:?}");
-                        if let Some(o) = oracle(&g, q) {
-                            if o != a {
-                                ctx.violation(&format!("history:wrong-answer:{}", key.split('(').next().unwrap_or("")), &format!("{key} answered {a}, the graph says {o}"), json!({"permutation": perm}));
-                            }
-                        }
-                        match first.get(&key) {
-                            None => {
-                                first.insert(key, a);
-                            }
-                            Some(f) if *f != a => ctx.violation(&format!("history:order-dependent:{}", key.split('(').next().unwrap_or("")), &format!("{key} answered {f} as an early query and {a} after a different history"), json!({"permutation": perm})),
-                            _ => {}
-                        }
-                    }
+            }
+            if let Some(d) = out.deadlock {
+                ctx.violation("history:deadlock", &format!("a single thread issuing queries sequentially stopped making progress: {d}"), json!({"keys": keys}));
+                ctx.finish();
+                std::process::exit(0);
+            }
+            for p in out.panics.iter().take(2) {
+                ctx.violation("history:panic", p, json!({"permutation": perm}));
+            }
+            for (q, a, o, which) in out.wrong.iter().take(3) {
+                let kind = format!("{q:?}");
+                let head = kind.split('(').next().unwrap_or("").to_string();
+                if which == "graph oracle" {
+                    ctx.violation(&format!("history:wrong-answer:{head}"), &format!("{kind} answered {}, the graph says {}", truncate(a, 200), truncate(o, 200)), json!({"permutation": perm}));
+                } else {
+                    ctx.violation(&format!("history:order-dependent:{head}"), &format!("{kind} answered {} as an early query and {} after a different history", truncate(o, 200), truncate(a, 200)), json!({"permutation": perm}));
                 }
             }
-            unsafe { reclaim_ns(nsh) };
+            for (k, a) in out.given {
+                first.entry(k).or_insert(a);
+            }
         }
     }
     // ---- schedule: concurrent trials on cold namespaces ---------------------------------------------
@@ -447,7 +453,7 @@ pub fn run(ctx: &mut Ctx) {
             }
         }
         unsafe { reclaim_ns(cold_h) };
-        let out = run_trial(grid, &g, scripts, &cold, crate::prng::mix(&[ctx.seed, ctx.shard, i]), stall);
+        let out = run_trial(grid, &g, scripts, &cold, crate::prng::mix(&[ctx.seed, ctx.shard, i]), stall, true);
         ctx.eval(&format!("schedule:threads{}", nthreads), crate::prng::mix(&[i, ctx.shard, nthreads as u64]), true);
         ctx.evaluations += out.answers;
         ctx.note_add("concurrent_answers_checked", out.answers);
